@@ -822,6 +822,15 @@ class History:
                 # ... or over the storage that a release through a bind containing an inner mount point left on the
                 # wrong mount point of the inner location (C11 finding)
                 cands = [l for ti in j["survivors"] for l in self.world.deployments[self.world.top[self.bindings[j["bi"]]["targets"][ti][0] % len(self.world.top)]]]
+                # same C10 finding when the exception comes before the anytime check had a chance to record the
+                # over-allocation: a multi-location target whose outer locations share one inner location
+                multi = any(self.bindings[j["bi"]]["targets"][ti][1] >= 2 for ti in j["survivors"])
+                shared_inner = any(
+                    self.world.locs[l].inner is not None and len(self.world.outer_sharing(self.world.locs[l].inner)) > 1 for l in cands
+                )
+                if "cannot have negative size" in str(e) and multi and shared_inner:
+                    self._violate("C10", "over-allocation:shared-inner", f"schedule({j['name']}) raised {type(e).__name__}: {e}")
+                    raise Abort() from None
                 if "cannot have negative size" in str(e) and any(self.world.locs[l].inner in self.nested_locs for l in cands):
                     self._violate("C11", "not-restored:inner-mount-under-bind", f"schedule({j['name']}) raised {type(e).__name__}: {e}")
                     raise Abort() from None
